@@ -442,7 +442,10 @@ def deep(depth, has_fn):
     call = st.tuples(st.sampled_from(["other", "other", "other", "same"]), st.deferred(lambda: deep(depth - 1, True)), fnarg,
                      extra, kwargs(0), catch(depth)).map(lambda t: ["call", t[0], t[1], [t[2]] + t[3], t[4], t[5]])
     seq = st.tuples(st.deferred(lambda: deep(depth - 1, has_fn)), leaf).map(lambda t: ["seq", list(t)])
-    opts = [call, call, seq]
+    # an instance of a harness class first, then the class itself, which the callee calls (a class is a callable too)
+    cls_call = st.sampled_from(["other", "same"]).map(
+        lambda w: ["call", "other", ["seq", [["ret", ["desc", 0]], ["callarg", 1, [], [], None]]], [["ref", "ctr"], ["ref", "cls"]], [], None])
+    opts = [call, call, call, seq, cls_call]
     if has_fn:
         cb_plain = st.tuples(extra, kwargs(0), catch(depth), st.sampled_from([0, 0, 0, 1, 2])).map(
             lambda t: ["callarg", t[3], t[0], t[1], t[2]])
